@@ -93,7 +93,9 @@ def run_tlc(module, cfg_text, workdir, extra_modules=(), workers=16, timeout=360
     with open(cfg, "w") as fh:
         fh.write(cfg_text)
     meta = os.path.join(workdir, "meta-" + module)
-    cmd = ["java", f"-Xmx{heap}", "-Xss128m", "-XX:+UseParallelGC", "-cp", JAR, "tlc2.TLC", "-workers", str(workers),
+    # (the tools unpack their standard modules into java.io.tmpdir: keep that inside the scratch directory of the run)
+    cmd = ["java", f"-Xmx{heap}", "-Xss128m", "-XX:+UseParallelGC", f"-Djava.io.tmpdir={workdir}", "-cp", JAR, "tlc2.TLC",
+           "-workers", str(workers),
            "-metadir", meta, "-noGenerateSpecTE", "-config", cfg]
     if not deadlock:
         cmd.append("-deadlock")
@@ -110,8 +112,13 @@ def run_tlc(module, cfg_text, workdir, extra_modules=(), workers=16, timeout=360
 
 
 def sany(path):
-    p = subprocess.run(["java", "-cp", JAR, "tla2sany.SANY", path], capture_output=True, text=True,
-                       cwd=os.path.dirname(path))
+    tmp = tempfile.mkdtemp(prefix="sany-", dir=os.path.join(VERIF, "build")) if os.path.isdir(os.path.join(VERIF, "build")) \
+        else tempfile.mkdtemp(prefix="sany-")
+    try:
+        p = subprocess.run(["java", f"-Djava.io.tmpdir={tmp}", "-cp", JAR, "tla2sany.SANY", path], capture_output=True,
+                           text=True, cwd=os.path.dirname(path))
+    finally:
+        shutil.rmtree(tmp, ignore_errors=True)
     ok = p.returncode == 0 and "Semantic errors" not in p.stdout and "***Parse Error***" not in p.stdout \
         and "Fatal errors" not in p.stdout
     return ok, p.stdout + p.stderr
